@@ -12,11 +12,23 @@ structure Meta where
   hasLocal : Bool
   held : Bool
 
+/-- a survey in the multi-node part -/
+structure BSv where
+  issuer : Nat
+  tl : Nat            -- index of the call in the issuer's state
+  deadline : Nat
+  cbs : List Nat      -- nodes whose handler callback has not been used yet
+
 structure DS where
   st : State
   k : Nat
   clock : Nat
   metas : List Meta
+  /-- multi-node part: one model state per node; a response is applied to the state of the node it
+  is addressed to (the requester), with the responder's uid -/
+  bst : List State := []
+  bsv : List BSv := []
+  bclock : Nat := 0
 
 def insStr (x : String) : List String → List String
   | [] => [x]
@@ -54,8 +66,94 @@ def applyAll (s : State) : List Label → Option State
   | [] => some s
   | l :: ls => (next s l).bind (applyAll · ls)
 
+def bsvLine (d : DS) (t : Nat) (b : BSv) : String :=
+  match (d.bst[b.issuer]?).bind (·.surveys[b.tl]?) with
+  | none => s!"b{t}=?"
+  | some sv =>
+    let state := match sv.main with
+      | .returnedErr => "err"
+      | .returnedOk => if sv.retErr then "deadline" else "ok"
+      | _ => "run"
+    let res :=
+      if sv.main != .returnedOk || sv.returned.isEmpty then "-"
+      else joinWith "," (sortStr (sv.returned.map fun (r : Reply) =>
+        s!"{if r.uid == selfUid then b.issuer else r.uid - 1}:{r.code}"))
+    s!"b{t}={b.issuer}/{sv.id}/{state}/{res}"
+
+def bobs (d : DS) (r : String) : String :=
+  let rec go (t : Nat) : List BSv → List String
+    | [] => []
+    | b :: rest => bsvLine d t b :: go (t + 1) rest
+  joinWith " " (s!"r={r}" :: go 0 d.bsv)
+
+def bsettle (d : DS) (r : String) : DS × String :=
+  let d' := { d with bst := d.bst.map fun s => tauClose (fuelOf s) s }
+  (d', bobs d' r)
+
+def bstep (d : DS) (ws : List String) : DS × String :=
+  match ws with
+  | ["bus", k] =>
+    match k.toNat? with
+    | some kn =>
+      let d' : DS := { d with bst := List.replicate kn init, bsv := [], bclock := 0 }
+      (d', bobs d' ("nodes" ++ String.join (List.replicate kn (toString kn))))
+    | none => (d, "bad-op")
+  | ["bsurvey", n, ms] =>
+    match n.toNat?, ms.toNat? with
+    | some ni, some m =>
+      match d.bst[ni]? with
+      | none => (d, "bad-op")
+      | some s =>
+        let tl := s.surveys.length
+        match applyAll s [Label.begin d.bst.length, Label.spawn tl, Label.publish tl true] with
+        | none => (d, "reject")
+        | some s1 =>
+          bsettle { d with bst := d.bst.set ni s1,
+                           bsv := d.bsv ++ [{ issuer := ni, tl := tl, deadline := d.bclock + m,
+                                              cbs := List.range d.bst.length }] } "-"
+    | _, _ => (d, "bad-op")
+  | ["breply", r, t, code] =>
+    match r.toNat?, t.toNat?, code.toNat? with
+    | some rn, some tn, some c =>
+      match d.bsv[tn]? with
+      | none => bsettle d "nocb"
+      | some b =>
+        if !b.cbs.contains rn then bsettle d "nocb" else
+        let d1 := { d with bsv := d.bsv.set tn { b with cbs := b.cbs.filter (· != rn) } }
+        match d1.bst[b.issuer]? with
+        | none => (d, "reject")
+        | some s =>
+          let id := ((s.surveys[b.tl]?).map (·.id)).getD 0
+          let l := if rn == b.issuer then Label.localReply b.tl c else Label.response (rn + 1) id c
+          match next s l with
+          | none => bsettle d1 "BLOCKED"
+          | some s1 => bsettle { d1 with bst := d1.bst.set b.issuer s1 } "-"
+    | _, _, _ => (d, "bad-op")
+  | ["btick", ms] =>
+    match ms.toNat? with
+    | some m =>
+      let clock := d.bclock + m
+      let bst := d.bsv.foldl (fun (acc : List State) b =>
+        if b.deadline ≤ clock then
+          match acc[b.issuer]? with
+          | some s =>
+            match s.surveys[b.tl]? with
+            | some sv =>
+              if !sv.ctxDone && sv.main != .returnedOk && sv.main != .returnedErr then
+                match next s (.ctxDone b.tl) with
+                | some s' => acc.set b.issuer s'
+                | none => acc
+              else acc
+            | none => acc
+          | none => acc
+        else acc) d.bst
+      bsettle { d with bst := bst, bclock := clock } "-"
+    | none => (d, "bad-op")
+  | _ => (d, "bad-op")
+
 def step (d : DS) (line : String) : DS × String :=
   let ws := words line
+  if (ws.head?.map (fun w => w.startsWith "b")).getD false then bstep d ws else
   match ws with
   | ["reset", k] =>
     match k.toNat? with
